@@ -53,6 +53,12 @@ def _make_index(ctx, fn, CS, LS, grid, scale=1.0):
 
         def __len__(self):
             return 0
+
+        def __iter__(self):
+            return iter(())
+
+        def __getitem__(self, k):
+            raise IndexError(k)
     explicit = {'grid': grid, 'csize': CS, 'lsize': LS, 'xmin': 0.0, 'ymin': 0.0, 'xmax': float(CS), 'ymax': float(LS),
                 'dX': 1.0, 'dY': 1.0, 'inventaire': set(), 'collection': None, 'verbose': False}
     try:
@@ -576,6 +582,9 @@ def rule_Q(ctx):
     try:
         for (w_, h_), res, margin in (((10.0, 4.0), (0.9, 0.9), 0.0), ((10.0, 0.39), None, 0.0), ((7.0, 5.0), (2.0, 2.0), 0.0), ((7.0, 5.0), (3.0, 2.0), 0.05), ((0.43, 9.0), None, 0.05), ((4.0, 9.0), (0.3, 0.7), 0.05)):
             trs = [TrackS([Coord(0.0, 0.0), Coord(w_, h_)]), TrackS([Coord(w_, 0.0), Coord(w_, h_)]), TrackS([Coord(0.0, h_), Coord(w_ / 2, h_)])]
+            if res is not None and margin == 0.0:
+                # a track of a single fix (no segment to register) ahead of the others: the others keep their numbers
+                trs = [TrackS([Coord(w_ / 3, h_ / 3)])] + trs[:1] + [TrackS([Coord(w_ / 2, h_ / 2)])] + trs[1:]
             coll = Coll(trs, BboxS(0.0, w_, 0.0, h_))
             ix = absint.instance(ctx, SI, {}, fn)
             n['cases'] += 1
@@ -597,6 +606,8 @@ def rule_Q(ctx):
                                                       'why': 'vertices in the uncovered strip map to a cell index >= the grid size: their segments are skipped at registration'}), '__init__')))
                 continue
             for num, t in enumerate(trs):
+                if len(t.obs) < 2:
+                    continue
                 for o_ in t.obs:
                     c = ix.call('__getCell', o_.fields['position'])
                     if c is None:
